@@ -237,11 +237,14 @@ theorem words_recs_length (big w64 : Bool) (rs : List CpuRec) :
 def CpuDoc.text (d : CpuDoc) : Str :=
   if d.eod then (match d.map with | none => [] | some m => unlines m.bodyLines) else []
 
-def CpuDoc.body (d : CpuDoc) : Str :=
-  words d.big d.w64 (d.recs.flatMap CpuRec.words) ++ (words d.big d.w64 (if d.eod then [0, 1, 0] else []) ++ d.text)
+/-- what follows the header, with the text part `T` -/
+def CpuDoc.bodyT (d : CpuDoc) (T : Str) : Str :=
+  words d.big d.w64 (d.recs.flatMap CpuRec.words) ++ (words d.big d.w64 (if d.eod then [0, 1, 0] else []) ++ T)
+
+def CpuDoc.body (d : CpuDoc) : Str := d.bodyT d.text
 
 theorem printCpu_eq (d : CpuDoc) : printCpu d = words d.big d.w64 [0, 3, 0, d.period, 0] ++ d.body := by
-  unfold printCpu CpuDoc.body CpuDoc.text
+  unfold printCpu CpuDoc.body CpuDoc.bodyT CpuDoc.text
   simp only [words_append, List.append_assoc]
   cases d.eod <;> cases d.map <;> rfl
 
@@ -250,8 +253,9 @@ theorem printCpu_eq2 (d : CpuDoc) :
   rw [printCpu_eq]
   simp only [words_cons, words_nil, List.append_nil, List.append_assoc]
 
-theorem cpuProfile_body (d : CpuDoc) (h : d.wf = true) :
-    cpuProfile d.big d.w64 d.period d.body = .ok (expectedCpu d) := by
+theorem cpuProfile_bodyT (d : CpuDoc) (h : d.wf = true) (T : Str) (hE : d.eod = false → T = [])
+    (hT : parseProcMaps (splitLines T) = (if d.eod then tailMappings d.map else [])) :
+    cpuProfile d.big d.w64 d.period (d.bodyT T) = .ok (expectedCpu d) := by
   simp only [CpuDoc.wf, Bool.and_eq_true, decide_eq_true_eq, List.all_eq_true, Bool.not_eq_true',
     Bool.and_eq_false_iff, beq_eq_false_iff_ne, ne_eq] at h
   obtain ⟨⟨⟨hp, hpb⟩, hrecs⟩, hmap⟩ := h
@@ -267,82 +271,101 @@ theorem cpuProfile_body (d : CpuDoc) (h : d.wf = true) :
     · exact h1 hc.1
     · exact h1 hc.2
   unfold cpuProfile
-  have hfuel : d.body.length + 1 = (d.body.length + 1 - d.recs.length) + d.recs.length := by
+  have hfuel : (d.bodyT T).length + 1 = ((d.bodyT T).length + 1 - d.recs.length) + d.recs.length := by
     have := words_recs_length d.big d.w64 d.recs
-    unfold CpuDoc.body
+    unfold CpuDoc.bodyT
     simp only [List.length_append]; omega
-  have hpos : ∃ f, d.body.length + 1 - d.recs.length = f + 1 := by
+  have hpos : ∃ f, (d.bodyT T).length + 1 - d.recs.length = f + 1 := by
     have := words_recs_length d.big d.w64 d.recs
-    refine ⟨d.body.length - d.recs.length, ?_⟩
-    unfold CpuDoc.body
+    refine ⟨(d.bodyT T).length - d.recs.length, ?_⟩
+    unfold CpuDoc.bodyT
     simp only [List.length_append]; omega
   obtain ⟨f, hf⟩ := hpos
   rw [hfuel, hf]
-  rw [show d.body = words d.big d.w64 (d.recs.flatMap CpuRec.words) ++
-    (words d.big d.w64 (if d.eod then [0, 1, 0] else []) ++ d.text) from rfl]
+  rw [show d.bodyT T = words d.big d.w64 (d.recs.flatMap CpuRec.words) ++
+    (words d.big d.w64 (if d.eod then [0, 1, 0] else []) ++ T) from rfl]
   rw [cpuSamplesLoop_recs d.big d.w64 (cpuSample d.period) d.recs hrecs']
   simp only [List.append_nil]
-  unfold CpuDoc.text expectedCpu
+  unfold expectedCpu
   cases heod : d.eod with
   | false =>
+    rw [hE heod]
     simp only [Bool.false_eq_true, if_false, words_nil, List.append_nil]
     rw [cpuSamplesLoop_end]
-    simp [splitLines, splitLinesAux, parseProcMaps]
+    simp [splitLines, splitLinesAux]
   | true =>
     simp only [if_true]
     rw [cpuSamplesLoop_eod]
-    simp only [List.reverse_reverse]
-    cases hm : d.map with
-    | none => simp [splitLines, splitLinesAux, parseProcMaps, tailMappings]
-    | some m =>
-      have hmwf : m.wf = true := by rw [hm] at hmap; simp only [heod] at hmap; simpa using hmap
-      simp only [tailMappings]
-      rw [splitLines_unlines _ (LineOK_bodyLines hmwf), parseProcMaps_bodyLines m hmwf]
+    simp only [List.reverse_reverse, hT, heod, if_true]
 
-theorem parseCPUWith_printCpu (java : Bool → Bool → Nat → Str → Outcome Profile) (d : CpuDoc) (h : d.wf = true) :
-    parseCPUWith java (printCpu d) = .ok (expectedCpu d) := by
+theorem cpuProfile_body (d : CpuDoc) (h : d.wf = true) :
+    cpuProfile d.big d.w64 d.period d.body = .ok (expectedCpu d) := by
+  have hmap : ∀ m, d.map = some m → d.eod = true ∧ m.wf = true := by
+    intro m hm
+    simp only [CpuDoc.wf, Bool.and_eq_true] at h
+    have := h.2; rw [hm] at this; simpa using this
+  apply cpuProfile_bodyT d h d.text
+  · intro he; simp [CpuDoc.text, he]
+  · unfold CpuDoc.text
+    cases heod : d.eod with
+    | false => simp [splitLines, splitLinesAux]
+    | true =>
+      cases hm : d.map with
+      | none => simp [splitLines, splitLinesAux, tailMappings]
+      | some m =>
+        simp only [if_true, tailMappings]
+        rw [splitLines_unlines _ (LineOK_bodyLines (hmap m hm).2), parseProcMaps_bodyLines m (hmap m hm).2]
+
+theorem parseCPUWith_text (java : Bool → Bool → Nat → Str → Outcome Profile) (d : CpuDoc) (h : d.wf = true)
+    (B : Str) (hbody : cpuProfile d.big d.w64 d.period B = .ok (expectedCpu d)) :
+    parseCPUWith java (words d.big d.w64 [0, 3, 0, d.period, 0] ++ B) = .ok (expectedCpu d) := by
   have hwf := h
   simp only [CpuDoc.wf, Bool.and_eq_true, decide_eq_true_eq] at h
   obtain ⟨⟨⟨hp, hpb⟩, _⟩, _⟩ := h
   have hb : d.wordBound = wordBound d.w64 := rfl
   rw [hb] at hpb
-  have hright : cpuHeaderWords d.big d.w64 (printCpu d) = some (false, d.period, d.body) := by
-    rw [printCpu_eq]; exact cpuHeaderWords_print d.big d.w64 d.period d.body hp hpb
-  have hbody := cpuProfile_body d hwf
+  have hright : cpuHeaderWords d.big d.w64 (words d.big d.w64 [0, 3, 0, d.period, 0] ++ B) = some (false, d.period, B) :=
+    cpuHeaderWords_print d.big d.w64 d.period B hp hpb
+  have e : words d.big d.w64 [0, 3, 0, d.period, 0] ++ B =
+      word d.big d.w64 0 ++ (word d.big d.w64 3 ++ (words d.big d.w64 [0, d.period, 0] ++ B)) := by
+    simp only [words_cons, words_nil, List.append_nil, List.append_assoc]
   unfold parseCPUWith
-  cases hbig : d.big <;> cases hw : d.w64 <;> rw [hbig, hw] at hright hbody
+  cases hbig : d.big <;> cases hw : d.w64 <;> rw [hbig, hw] at hright hbody e
   · -- 32-bit little endian: the first decoder
+    generalize hX : words false false [0, 3, 0, d.period, 0] ++ B = X at hright e ⊢
     simp only [hright, hbody]
   · -- 64-bit little endian: 32l and 32b fail on the second word
-    have e := printCpu_eq2 d
-    rw [hbig, hw] at e
-    have w1 : cpuHeaderWords false false (printCpu d) = none := by
+    generalize hX : words false true [0, 3, 0, d.period, 0] ++ B = X at hright e ⊢
+    have w1 : cpuHeaderWords false false X = none := by
       rw [e]
       exact cpuHeaderWords_none false false [0, 0, 0, 0] [0, 0, 0, 0] ([3, 0, 0, 0, 0, 0, 0, 0] ++ _) rfl rfl (by decide)
-    have w2 : cpuHeaderWords true false (printCpu d) = none := by
+    have w2 : cpuHeaderWords true false X = none := by
       rw [e]
       exact cpuHeaderWords_none true false [0, 0, 0, 0] [0, 0, 0, 0] ([3, 0, 0, 0, 0, 0, 0, 0] ++ _) rfl rfl (by decide)
     simp only [w1, w2, hright, hbody]
   · -- 32-bit big endian: 32l reads 0x03000000
-    have e := printCpu_eq2 d
-    rw [hbig, hw] at e
-    have w1 : cpuHeaderWords false false (printCpu d) = none := by
+    generalize hX : words true false [0, 3, 0, d.period, 0] ++ B = X at hright e ⊢
+    have w1 : cpuHeaderWords false false X = none := by
       rw [e]
       exact cpuHeaderWords_none false false [0, 0, 0, 0] [0, 0, 0, 3] _ rfl rfl (by decide)
     simp only [w1, hright, hbody]
   · -- 64-bit big endian
-    have e := printCpu_eq2 d
-    rw [hbig, hw] at e
-    have w1 : cpuHeaderWords false false (printCpu d) = none := by
+    generalize hX : words true true [0, 3, 0, d.period, 0] ++ B = X at hright e ⊢
+    have w1 : cpuHeaderWords false false X = none := by
       rw [e]
       exact cpuHeaderWords_none false false [0, 0, 0, 0] [0, 0, 0, 0] ([0, 0, 0, 0, 0, 0, 0, 3] ++ _) rfl rfl (by decide)
-    have w2 : cpuHeaderWords true false (printCpu d) = none := by
+    have w2 : cpuHeaderWords true false X = none := by
       rw [e]
       exact cpuHeaderWords_none true false [0, 0, 0, 0] [0, 0, 0, 0] ([0, 0, 0, 0, 0, 0, 0, 3] ++ _) rfl rfl (by decide)
-    have w3 : cpuHeaderWords false true (printCpu d) = none := by
+    have w3 : cpuHeaderWords false true X = none := by
       rw [e]
       exact cpuHeaderWords_none false true [0, 0, 0, 0, 0, 0, 0, 0] [0, 0, 0, 0, 0, 0, 0, 3] _ rfl rfl (by decide)
     simp only [w1, w2, w3, hright, hbody]
+
+
+theorem parseCPUWith_printCpu (java : Bool → Bool → Nat → Str → Outcome Profile) (d : CpuDoc) (h : d.wf = true) :
+    parseCPUWith java (printCpu d) = .ok (expectedCpu d) := by
+  rw [printCpu_eq]; exact parseCPUWith_text java d h d.body (cpuProfile_body d h)
 
 
 /-! ### the signal-handler frame rule -/
